@@ -17,7 +17,7 @@ from ..core import META, Ctx, RuleResult, rule
 from ..model import AnalysisError, Cls, Func, norm_stmt, parent
 from ..pattern import C, G, V, add, call, div, match, mul, neg, norm
 from ..terms import Term, alts, contains, ends_with_attrs, root_of, show, subterms
-from ..util import calls_in, nodes_in
+from ..util import tuple_components, value_alts, calls_in, nodes_in
 from .c06 import c06_2
 from .c14 import step_run_methods
 
@@ -107,20 +107,21 @@ def c11_2(ctx: Ctx) -> RuleResult:
 
     m = c.methods.get("magnitudes_to_optimizer")
     if m is not None:
-        rt = norm(X.return_term(m))
+        rt = X.return_term(m)
         want = {norm(div(P_(m, 1), self_attr(m, "_scales"))), P_(m, 1)}
-        ok = {a for a in alts(rt)} == want
+        ok = value_alts(rt) == want
         res.add(m, m.node, "magnitudes_to_optimizer == m / scales (unchanged without scales)", ok, "" if ok else f"returns `{show(rt, 80)}`", construct="scaler: magnitudes")
     else:
         res.add(None, c.node, "magnitudes_to_optimizer exists", False, construct="scaler: magnitudes", where=c.module.relpath, fname=c.qualname)
     m = c.methods.get("bound_constraint_diffs_from_optimizer")
     if m is not None:
         rt = X.return_term(m)
-        ok = rt[0] == "tuple" and len(rt[1]) == 2
+        comps = tuple_components(rt, 2)
+        ok = comps is not None
         if ok:
             for i in (0, 1):
                 want = {norm(mul(P_(m, 1 + i), self_attr(m, "_scales"))), P_(m, 1 + i)}
-                ok = ok and {norm(a) for a in alts(rt[1][i])} == want
+                ok = ok and comps[i] == want
         res.add(m, m.node, "bound differences are multiplied by the scales, (lower, upper) order kept", ok, "" if ok else f"returns `{show(rt, 100)}`", construct="scaler: bound diffs")
     m = c.methods.get("linear_constraints_to_optimizer")
     if m is not None:
@@ -157,11 +158,12 @@ def c11_2(ctx: Ctx) -> RuleResult:
     m = c.methods.get("linear_constraints_diffs_from_optimizer")
     if m is not None:
         rt = X.return_term(m)
-        ok = rt[0] == "tuple" and len(rt[1]) == 2
+        comps = tuple_components(rt, 2)
+        ok = comps is not None
         if ok:
             for i in (0, 1):
                 want = {norm(mul(P_(m, 1 + i), self_attr(m, "_equation_scaling"))), P_(m, 1 + i)}
-                ok = ok and {norm(a) for a in alts(rt[1][i])} == want
+                ok = ok and comps[i] == want
         res.add(m, m.node, "linear differences are multiplied by the row scaling (undoing the normalisation)", ok, "" if ok else f"returns `{show(rt, 100)}`", construct="scaler: linear diffs")
     res.floor = 4
     return res
